@@ -118,6 +118,17 @@ def obs (d : DSt) : String :=
   let ps := " ".intercalate ((List.range d.seen.length).map (fun i => payloadTok d.st d.seen i (d.seen.getD i 0)))
   s!"{hs} | {if ps.isEmpty then "-" else ps} | live={liveCount d.st} bad={d.st.viol}"
 
+/-- driver only: the state functions (`upd` chains growing with the history) are re-tabulated into arrays; the
+    state is extensionally the same on all slots < n and blocks < next, everything beyond is at its initial value -/
+def compact (s : St) : St :=
+  let sl := (Array.range s.n).map s.slots
+  let ow := (Array.range s.n).map s.owner
+  let hp := (Array.range s.next).map s.heap
+  let fr := (Array.range s.next).map s.freed
+  let pcs := (Array.range nThreads).map s.pc
+  { s with slots := fun i => sl.getD i .none, owner := fun i => ow.getD i 0, heap := fun b => hp.getD b none,
+           freed := fun b => fr.getD b 0, pc := fun t => pcs.getD t .idle }
+
 def kindBase (k : Nat) : Nat := 4 * k
 
 def idx (k : Nat) (t : String) : Option Nat := do
@@ -369,6 +380,7 @@ def stepLine (d : DSt) (ws : List String) : DSt × String :=
         let (d2, toks) := drain d1 1 toks
         if d2.bad then (d2, "bad-op")
         else
+          let d2 := { d2 with st := compact d2.st }
           let d3 := { d2 with seen := scanSeen d2.st d2.seen, thr := List.replicate nThreads {} }
           (d3, " ".intercalate toks ++ " # " ++ obs d3)
       else (d, "bad-op")
@@ -379,6 +391,7 @@ def stepLine (d : DSt) (ws : List String) : DSt × String :=
     | some op =>
       match apiStepN d.st 0 op with
       | some s' =>
+        let s' := compact s'
         let d' := { d with st := s', seen := scanSeen s' d.seen }
         (d', obs d')
       | none => (d, "bad-op")
